@@ -18,7 +18,7 @@ PROP = "C03"
 HEADER = "Require Import Coq.QArith.QArith PF.Lib.QStats PF.Model.Stats.\nOpen Scope Z_scope."
 MODEL_TARGETS = ["Model/Stats.vo"]
 SHARD = 60
-RULE = ("materialized frames of 1-14 rows with 1-3 feature columns (+ optional numerical / two-class / multi-class "
+RULE = ("(45 % of the datasets are built with a split column (0/1/2, incl. no train rows / all train); separators, time formats and embedder configurations are passed as complete dicts, partial dicts or one plain value; 30 % of the frames are materialized at the end of a HISTORY on the same Dataset object: a failed first materialize followed by row removal + dtype repair + retry, or a column-selected copy materialized first and rows removed afterwards; the statistics must be those of the frame finally materialized) materialized frames of 1-14 rows with 1-3 feature columns (+ optional numerical / two-class / multi-class "
         "target) drawn from generators that stratify the value multiset (dyadic / integer / constant / skewed / single "
         "value / only-inf / all-missing / tied and skewed category frequencies / duplicated, empty and missing "
         "multicategorical cells / unsorted, tied, unparseable and missing timestamps / sequences with NaN and inf or "
@@ -80,7 +80,7 @@ def base_col(name, st):
     return {"name": name, "stype": st, "dtype": "object", "sep": None, "fmt": None, "width": None}
 
 
-def gen_num_col(rng, name, n, for_target=False):
+def gen_num_col(rng, name, n, for_target=False, shared=None):
     col = base_col(name, "numerical")
     col["dtype"] = "float"
     shape = "usable" if for_target else rng.wpick([(12, "usable"), (2, "single"), (1, "allmissing"), (1, "onlyinf")])
@@ -107,7 +107,7 @@ def gen_num_col(rng, name, n, for_target=False):
     return col
 
 
-def gen_seq_col(rng, name, n):
+def gen_seq_col(rng, name, n, shared=None):
     col = base_col(name, "sequence_numerical")
     shape = rng.wpick([(10, "usable"), (2, "allempty"), (2, "allnan"), (1, "allmissing"), (1, "single")])
     vals_kind = rng.wpick(NUM_KINDS)
@@ -156,7 +156,7 @@ def exact_counts_cells(rng, pool, n, style):
     return None
 
 
-def gen_cat_col(rng, name, n, for_target=None):
+def gen_cat_col(rng, name, n, for_target=None, shared=None):
     col = base_col(name, "categorical")
     vk = rng.wpick([(5, "str"), (2, "int")])
     if for_target == "binary":
@@ -198,9 +198,9 @@ def gen_cat_col(rng, name, n, for_target=None):
     return col
 
 
-def gen_multi_col(rng, name, n):
+def gen_multi_col(rng, name, n, shared=None):
     col = base_col(name, "multicategorical")
-    use_sep = rng.chance(0.6)
+    use_sep = rng.chance(0.6) if not (shared and "sep" in shared) else shared["sep"] is not None
     pool = rng.sample(G.TOKENS, rng.randint(1, 6))
     shape = rng.wpick([(12, "usable"), (1, "allmissing"), (2, "allempty"), (1, "single")])
     mp = rng.pick([0.0, 0.2, 0.4])
@@ -218,7 +218,7 @@ def gen_multi_col(rng, name, n):
         toks_cells = [rng.pick([None, []]) for _ in range(n)]
         toks_cells[rng.randrange(n)] = [pool[0]] * rng.randint(1, 3)
     if use_sep:
-        sep = rng.pick(["|", ","])
+        sep = rng.pick(["|", ","]) if not (shared and "sep" in shared) else shared["sep"]
         col["sep"] = sep
         col["dtype"] = rng.pick(["object", "str"])
         cells = []
@@ -250,9 +250,9 @@ def rand_time(rng, fmt, near=None):
     return [y, m, d, hh, mm, ss]
 
 
-def gen_time_col(rng, name, n):
+def gen_time_col(rng, name, n, shared=None):
     col = base_col(name, "timestamp")
-    fmt = rng.pick(G.FMTS)
+    fmt = rng.pick(G.FMTS) if not (shared and "fmt" in shared) else shared["fmt"]
     col["fmt"] = fmt
     shape = rng.wpick([(12, "usable"), (1, "allmissing"), (1, "allgarbage"), (2, "single")])
     mp = rng.pick([0.0, 0.2, 0.4])
@@ -283,7 +283,7 @@ def gen_time_col(rng, name, n):
     return col
 
 
-def gen_emb_col(rng, name, n):
+def gen_emb_col(rng, name, n, shared=None):
     st = rng.wpick([(4, "embedding"), (1, "text_embedded"), (1, "image_embedded")])
     col = base_col(name, st)
     if st == "embedding":
@@ -307,7 +307,12 @@ def gen_case(rng, tier):
     n = rng.wpick([(1, 1), (1, 2), (1, 3), (2, 4), (2, 5), (4, rng.randint(6, 14))])
     k = rng.wpick([(3, 1), (3, 2), (2, 3)])
     names = rng.sample(["alpha", "beta", "gamma", "delta", "eps", "zeta", "eta", "theta"], k + 1)
-    cols = [rng.wpick(FEATURE_GENS)(rng, names[i], n) for i in range(k)]
+    shared = {}
+    if rng.chance(0.4):
+        # one separator / one time format for all columns, so that the constructor can be given a plain string
+        shared["sep"] = rng.pick(["|", ",", None])
+        shared["fmt"] = rng.pick([f for f in G.FMTS if f != "datetime64"])
+    cols = [rng.wpick(FEATURE_GENS)(rng, names[i], n, shared=shared) for i in range(k)]
     target = None
     tk = rng.wpick([(4, None), (3, "binary"), (2, "multi"), (2, "num")])
     if tk is not None and n >= 2:
@@ -318,7 +323,115 @@ def gen_case(rng, tier):
         target = names[k]
     order = [c["name"] for c in cols]
     rng.shuffle(order)
-    return {"n": n, "index": rng.pick(ALL_INDEX), "cols": cols, "target": target, "col_order": order}
+    case = {"n": n, "index": rng.pick(ALL_INDEX), "cols": cols, "target": target, "col_order": order}
+    case["ctor"] = gen_ctor(rng, case)
+    if n >= 3 and rng.chance(0.3):
+        case["history"] = gen_history(rng, case)
+    return case
+
+
+def gen_ctor(rng, case):
+    """Non-default ways of constructing the Dataset: a split column (values 0/1/2; the statistics are those of the WHOLE
+    column whatever the split), and the forms in which separators / time formats / embedder configurations are passed
+    (dict over all columns, dict omitting the columns whose value is None, one plain value for all columns)."""
+    n = case["n"]
+    ctor = {"split": None, "sep_form": "dict", "fmt_form": "dict", "cfg_form": "dict"}
+    if rng.chance(0.45):
+        kind = rng.wpick([(4, "random"), (2, "sorted"), (1, "no_train"), (1, "all_train"), (1, "train_first")])
+        if kind == "random":
+            sp = [rng.pick([0, 0, 1, 2]) for _ in range(n)]
+        elif kind == "sorted":
+            sp = sorted(rng.pick([0, 1, 2]) for _ in range(n))
+        elif kind == "no_train":
+            sp = [rng.pick([1, 2]) for _ in range(n)]
+        elif kind == "all_train":
+            sp = [0] * n
+        else:
+            sp = [0] + [rng.pick([1, 2]) for _ in range(n - 1)]
+        ctor["split"] = sp
+        ctor["split_kind"] = kind
+    seps = [c["sep"] for c in case["cols"] if c["stype"] == "multicategorical"]
+    if seps:
+        forms = ["dict"] + (["plain"] * 2 if len(set(seps)) == 1 else []) + (["partial"] * 2 if None in seps else [])
+        ctor["sep_form"] = rng.pick(forms)
+    fmts = [None if c["fmt"] in (None, "datetime64") else c["fmt"] for c in case["cols"] if c["stype"] == "timestamp"]
+    if fmts:
+        forms = ["dict"] + (["plain"] * 2 if len(set(fmts)) == 1 else []) + (["partial"] * 2 if None in fmts else [])
+        ctor["fmt_form"] = rng.pick(forms)
+    if any(c["stype"] in ("text_embedded", "image_embedded") for c in case["cols"]):
+        ctor["cfg_form"] = rng.pick(["dict", "plain"])
+    return ctor
+
+
+SPLIT = "__split__"
+
+
+def build_ds(desc, df, ctor):
+    """Dataset over df, constructed as `ctor` says (G.build_dataset always passes complete dicts and no split column)."""
+    import torch_frame
+    from torch_frame.config.image_embedder import ImageEmbedderConfig
+    from torch_frame.config.text_embedder import TextEmbedderConfig
+    from torch_frame.data import Dataset
+    ctor = ctor or {}
+    by = {c["name"]: c for c in desc["cols"]}
+    col_to_stype = {name: getattr(torch_frame, by[name]["stype"]) for name in df.columns if name in by}
+
+    def form(values, how):
+        if not values:
+            return None
+        if how == "plain":
+            return next(iter(values.values()))
+        if how == "partial":
+            return {k: v for k, v in values.items() if v is not None}
+        return dict(values)
+    sep = form({n: by[n]["sep"] for n in col_to_stype if by[n]["stype"] == "multicategorical"}, ctor.get("sep_form"))
+    fmt = form({n: (by[n].get("cfg_fmt") if by[n]["fmt"] == "datetime64" else by[n]["fmt"])
+                for n in col_to_stype if by[n]["stype"] == "timestamp"}, ctor.get("fmt_form"))
+    te = {n: TextEmbedderConfig(text_embedder=G.StubTextEmbedder(3), batch_size=by[n].get("batch_size"))
+          for n in col_to_stype if by[n]["stype"] == "text_embedded"}
+    ie = {n: ImageEmbedderConfig(image_embedder=G.StubImageEmbedder(2), batch_size=by[n].get("batch_size"))
+          for n in col_to_stype if by[n]["stype"] == "image_embedded"}
+    te = form(te, ctor.get("cfg_form"))
+    ie = form(ie, ctor.get("cfg_form"))
+    kw = {}
+    if ctor.get("split") is not None:
+        df[SPLIT] = list(ctor["split"])
+        kw["split_col"] = SPLIT
+    return Dataset(df, col_to_stype, target_col=desc["target"], col_to_sep=sep, col_to_time_format=fmt,
+                   col_to_text_embedder_cfg=te, col_to_image_embedder_cfg=ie, **kw)
+
+
+def gen_history(rng, case):
+    """What happened to the Dataset object before the materialization whose statistics are checked: the frame that is
+    finally materialized is the described one WITHOUT `drop_rows` (the rows the user removed in between).
+    retry     -- a numerical column declared last holds text in the rows to be dropped: the first materialize raises
+                 the documented TypeError; the user drops those rows, fixes the dtype and materializes again.
+    colselect -- `ds[[cols]].materialize()` (a column-selected copy of the dataset) ran first; rows were then
+                 dropped from ds.df and ds itself is materialized."""
+    n = case["n"]
+    k = rng.randint(1, max(1, n // 2))
+    keep_min = 2 if case["target"] else 0                   # dfgen targets: the first two rows carry two classes
+    cand = list(range(keep_min, n))
+    drop = sorted(rng.sample(cand, min(k, len(cand))))
+    feats = [c for c in case["cols"] if c["name"] != case["target"]]
+    nums = [c["name"] for c in feats if c["stype"] == "numerical"]
+    if nums and len(case["cols"]) >= 2 and rng.chance(0.6):
+        dirty = rng.pick(nums)
+        case["col_order"] = [x for x in case["col_order"] if x != dirty] + [dirty]      # declared after the others
+        return {"kind": "retry", "dirty": dirty, "drop_rows": drop}
+    sel = rng.sample([c["name"] for c in feats], rng.randint(1, len(feats)))
+    return {"kind": "colselect", "cols": sel, "drop_rows": drop}
+
+
+def final_desc(case):
+    """The frame that is materialized in the end (what the statistics must be the statistics OF)."""
+    h = case.get("history")
+    if not h:
+        return case
+    keep = [i for i in range(case["n"]) if i not in set(h["drop_rows"])]
+    d = dict(case, n=len(keep), cols=[dict(c, cells=[c["cells"][i] for i in keep]) for c in case["cols"]])
+    d.pop("history")
+    return d
 
 
 def small_scope(tier):
@@ -374,10 +487,38 @@ def prep(desc):
 def run(case):
     import torch_frame
     from torch_frame.data.stats import compute_col_stats
+    import pandas as pd
     d = prep(case)
     out = {"ok": False}
+    h = case.get("history")
     try:
-        ds, _ = G.build_dataset(d)
+        ctor = case.get("ctor")
+        if not h:
+            ds = build_ds(d, G.build_df(d), ctor)
+        else:
+            df = G.build_df(d)
+            keep = [i for i in range(case["n"]) if i not in set(h["drop_rows"])]
+            if h["kind"] == "retry":
+                vals = df[h["dirty"]].tolist()
+                for i in h["drop_rows"]:
+                    vals[i] = "oops"
+                df[h["dirty"]] = pd.Series(vals, dtype=object, index=df.index)
+                ds = build_ds(d, df, ctor)
+                try:
+                    ds.materialize()
+                    out["first_attempt"] = "no-raise"
+                except Exception as ex:
+                    out["first_attempt"] = C.exc_name(ex)
+                # the user removes the offending rows and repairs the dtype, then tries again
+                ds.df = ds.df.iloc[keep].copy()
+                ds.df[h["dirty"]] = ds.df[h["dirty"]].astype(float)
+            else:
+                ds = build_ds(d, df, ctor)
+                sub = ds[list(h["cols"])]
+                sub.materialize()
+                out["first_attempt"] = "colselect-materialized"
+                ds.df = ds.df.iloc[keep].copy()
+            d = prep(final_desc(case))
     except Exception as ex:
         return {"ok": False, "stage": "build", "exc": C.exc_name(ex), "msg": str(ex)[:300], "tb": C.fmt_exc()}
     # direct observation point: compute_col_stats(series, stype, sep, time_format)
@@ -574,6 +715,10 @@ def tf_column(case, obs, col):
 
 
 def oracle(case, obs):
+    return _oracle(final_desc(case), obs)
+
+
+def _oracle(case, obs):
     if "harness_exc" in obs:
         return dict(key="harness-exc", what=obs["harness_exc"], tb=obs.get("tb"))
     if obs.get("stage") == "build":
@@ -592,7 +737,13 @@ def oracle(case, obs):
         sts = sorted({c["stype"] + "/" + str(c.get("gen")) for c in case["cols"]})
         return dict(key=f"materialize-raises:{obs['exc']}", what=f"materialize raised {obs['exc']}: {obs['msg']} "
                     f"(columns: {sts})", tb=obs.get("tb"))
-    # 2. dataset.col_stats
+    # the split column (and the target) is not a feature: it must not appear in the frame
+    in_frame = sorted(n for names in obs["tf"]["names"].values() for n in names)
+    feats = sorted(c["name"] for c in case["cols"] if c["name"] != case["target"])
+    if in_frame != feats:
+        return dict(key="frame-columns", what="the TensorFrame does not hold exactly the feature columns (the split column "
+                    "and the target are not features)", expected=feats, observed=in_frame)
+    # 2. dataset.col_stats (exactly the declared columns: the split column gets no statistics)
     if set(obs["stats"]) != {c["name"] for c in case["cols"]}:
         return dict(key="stats-columns", what="col_stats does not have exactly the dataset's columns",
                     expected=sorted(c["name"] for c in case["cols"]), observed=sorted(obs["stats"]))
@@ -629,6 +780,20 @@ def oracle(case, obs):
 
 
 def shrink(case):
+    ct = case.get("ctor") or {}
+    if ct.get("split") is not None and not case.get("history"):
+        yield dict(case, ctor=dict(ct, split=None))
+    if case.get("history"):
+        h = case["history"]
+        for k in range(len(h["drop_rows"])):
+            if len(h["drop_rows"]) > 1:
+                yield dict(case, history=dict(h, drop_rows=h["drop_rows"][:k] + h["drop_rows"][k + 1:]))
+        cols = case["cols"]
+        for k, c in enumerate(cols):
+            if c["name"] != case["target"] and c["name"] != h.get("dirty") and c["name"] not in h.get("cols", []) \
+                    and len(cols) > 2:
+                yield dict(case, cols=cols[:k] + cols[k + 1:], col_order=[n for n in case["col_order"] if n != c["name"]])
+        return
     cols = case["cols"]
     for k, c in enumerate(cols):
         if c["name"] != case["target"] and len(cols) > 1:
@@ -639,8 +804,11 @@ def shrink(case):
         yield dict(case, cols=rest, target=None, col_order=[n for n in case["col_order"] if n != case["target"]])
     if case["n"] > 1:
         for k in range(case["n"]):
-            yield dict(case, n=case["n"] - 1,
-                       cols=[dict(c, cells=c["cells"][:k] + c["cells"][k + 1:]) for c in cols])
+            c2 = dict(case, n=case["n"] - 1,
+                      cols=[dict(c, cells=c["cells"][:k] + c["cells"][k + 1:]) for c in cols])
+            if ct.get("split") is not None:
+                c2["ctor"] = dict(ct, split=ct["split"][:k] + ct["split"][k + 1:])
+            yield c2
     if case["index"] != "range":
         yield dict(case, index="range")
     # simplify single cells of multi-valued columns
@@ -675,16 +843,37 @@ def col_sig(case, col):
 def nontrivial_sig(case, obs):
     if not obs.get("ok"):
         return None
-    return json.dumps(sorted(col_sig(case, c) for c in case["cols"]), default=str)
+    hist = [(case.get("history") or {}).get("kind"), (case.get("ctor") or {}).get("split_kind"),
+            (case.get("ctor") or {}).get("sep_form"), (case.get("ctor") or {}).get("fmt_form")]
+    case = final_desc(case)
+    return json.dumps([hist, sorted(col_sig(case, c) for c in case["cols"])], default=str)
 
 
 def stats(cases, obss):
     d = {"columns": {}, "gen_kinds": {}, "rows": {}, "index": {}, "targets": {"none": 0, "binary": 0, "multi": 0, "num": 0},
          "raised": 0, "tied_count_columns": 0, "no_usable_value_columns": 0, "even_n": 0, "odd_n": 0, "total": 0}
+    d["histories"] = {"none": 0, "retry": 0, "colselect": 0}
+    d["split"] = {"none": 0}
+    d["ctor_forms"] = {}
+    d["split_with_numeric_columns"] = 0
+    d["first_attempt"] = {}
     for c, o in zip(cases, obss):
         if c is None:
             continue
         d["total"] += 1
+        d["histories"][(c.get("history") or {}).get("kind", "none")] += 1
+        ct = c.get("ctor") or {}
+        sk = ct.get("split_kind", "none") if ct.get("split") is not None else "none"
+        d["split"][sk] = d["split"].get(sk, 0) + 1
+        if sk != "none" and any(x["stype"] in ("numerical", "sequence_numerical") for x in c["cols"]):
+            d["split_with_numeric_columns"] += 1
+        for k in ("sep_form", "fmt_form", "cfg_form"):
+            kk = k + ":" + str(ct.get(k, "dict"))
+            d["ctor_forms"][kk] = d["ctor_forms"].get(kk, 0) + 1
+        if c.get("history"):
+            fa = (o or {}).get("first_attempt")
+            d["first_attempt"][str(fa)] = d["first_attempt"].get(str(fa), 0) + 1
+        c = final_desc(c)
         d["rows"][c["n"]] = d["rows"].get(c["n"], 0) + 1
         d["index"][c["index"]] = d["index"].get(c["index"], 0) + 1
         if not (o or {}).get("ok"):
@@ -743,11 +932,25 @@ def sanity(cases, obss):
     for k in ("binary", "multi", "num", "none"):
         if d["targets"][k] == 0:
             probs.append(f"target kind {k} never drawn")
+    for k in ("random", "sorted", "no_train", "all_train", "train_first"):
+        if d["split"].get(k, 0) == 0:
+            probs.append(f"split column kind {k} never drawn")
+    if d["split_with_numeric_columns"] == 0:
+        probs.append("no dataset with a split column and a numerical / sequence column")
+    for k in ("sep_form:plain", "sep_form:partial", "fmt_form:plain", "fmt_form:partial", "cfg_form:plain"):
+        if d["ctor_forms"].get(k, 0) == 0:
+            probs.append(f"constructor argument form {k} never drawn")
+    for k in ("retry", "colselect"):
+        if d["histories"][k] == 0:
+            probs.append(f"history kind {k} never drawn")
+    if d["histories"]["retry"] and d["first_attempt"].get("TypeError", 0) == 0:
+        probs.append("no retry history whose first materialize raised the documented TypeError")
     # two-class targets whose frequency order differs from the sorted order
     swapped = 0
     for c in cases:
         if c is None or c["target"] is None:
             continue
+        c = final_desc(c)
         col = next(x for x in c["cols"] if x["name"] == c["target"])
         if col["stype"] == "categorical" and len(set(col["cells"])) == 2:
             a, b = sorted(set(col["cells"]))
@@ -884,6 +1087,7 @@ def coq_col(case, obs, col, extra):
 def coq_term(case, obs):
     if not obs.get("ok"):
         return None
+    case = final_desc(case)
     terms = []
     for col in case["cols"]:
         r = coq_col(case, obs, col, terms)
